@@ -679,7 +679,56 @@ def rule_r4(ck, prog):
                 return truth is False
             if sn['k'] == 'call' and qmatch(sn.get('c', ''), 'SpinLockMutex::try_lock'):
                 return truth is True
+            if sn['k'] == 'call' and sn.get('ck') in acquiring_helpers:
+                return truth is True
+        # `if (spin_fast() || yield_then_try()) return;`: the true outcome of a disjunction of acquiring calls
+        cn = lab[1].nodes[core]
+        if cn['k'] == 'binop' and cn['op'] == '||' and truth is True:
+            parts = []
+            stack = [core]
+            while stack:
+                x = strip_casts(lab[1], stack.pop())
+                if x['k'] == 'binop' and x['op'] == '||':
+                    stack += [x['lhs'], x['rhs']]
+                else:
+                    parts.append(x)
+            if parts and all(x['k'] == 'call' and (x.get('ck') in acquiring_helpers or qmatch(x.get('c', ''), 'SpinLockMutex::try_lock')) for x in parts):
+                return True
         return False
+    # private helpers of the lock that report "acquired" by returning true: every return of theirs is the literal false, or behind
+    # an acquiring edge, or the result of try_lock() / another such helper itself
+    acquiring_helpers = set()
+    for h in [x for x in prog.funcs.values() if x.cls == f.cls and x.blocks and x.name not in ('lock', 'try_lock', 'unlock') and (x.d.get('ret') or '') == 'bool']:
+        gh = Graph(prog, h, inline=None, sync_lambdas=False)
+        rdh = reaching_defs(gh)
+
+        def h_acq(a, b, lab, gh=gh, rdh=rdh):
+            if not lab or not isinstance(lab[0], int):
+                return False
+            core, pol = norm_cond(lab[1], lab[0])
+            truth = lab[2] if pol else (not lab[2])
+            for (sf, sn, sctx) in origins(gh, rdh, lab[1], core, gh.root_ctx):
+                o = atomic_op(sn)
+                if o and o[1] == 'exchange':
+                    return truth is False
+                if sn['k'] == 'call' and qmatch(sn.get('c', ''), 'SpinLockMutex::try_lock'):
+                    return truth is True
+            return False
+        okh = True
+        for r in gh.returns():
+            e = strip_casts(h, r.n['e']) if r.n.get('e') is not None else None
+            if e is None:
+                okh = False
+            elif e.get('v') == 0 and e['k'] == 'lit':
+                continue
+            elif e['k'] == 'call' and qmatch(e.get('c', ''), 'SpinLockMutex::try_lock'):
+                continue
+            elif e.get('v') == 1 and gh.must_pass_edge(r, h_acq):
+                continue
+            else:
+                okh = False
+        if okh and gh.returns():
+            acquiring_helpers.add(h.key)
     rets = g.returns()
     reach = g.reachable_from(g.entry)
     rets = [r for r in rets if r.id in reach]
